@@ -167,6 +167,9 @@ type lsEval struct {
 	env   *lsEnv
 	undec string
 	skip  map[ast.Stmt]bool // the decoration loop itself (driven from outside)
+	// dAlias: parameters of inlined helpers that stand for the decoration text
+	dAlias map[types.Object]bool
+	depth  int
 }
 
 func (v *lsEval) fail(f string, a ...interface{}) {
@@ -211,6 +214,12 @@ func (v *lsEval) evalInt(s *lsState, x ast.Expr) (int64, bool) {
 		if tv, ok := v.info.Types[t.Fun]; ok && tv.IsType() && len(t.Args) == 1 {
 			return v.evalInt(s, t.Args[0])
 		}
+		// len(d) when the decoration is "\n"
+		if id, ok := t.Fun.(*ast.Ident); ok && id.Name == "len" && len(t.Args) == 1 && v.isD(t.Args[0]) && v.env.dObj != nil && v.env.class == clsNL {
+			if _, isB := v.info.Uses[id].(*types.Builtin); isB {
+				return 1, true
+			}
+		}
 		// a same-package classification of the decoration: f(d) returning constants
 		if len(t.Args) == 1 && v.isD(t.Args[0]) {
 			if fn := calleeFunc(v.info, t); fn != nil && fn.Pkg() != nil && fn.Pkg().Path() == load.PkgDecorator {
@@ -247,7 +256,123 @@ func (v *lsEval) strConst(x ast.Expr) (string, bool) {
 
 func (v *lsEval) isD(x ast.Expr) bool {
 	id, ok := ast.Unparen(x).(*ast.Ident)
-	return ok && v.env.dObj != nil && v.info.Uses[id] == v.env.dObj
+	if !ok {
+		return false
+	}
+	o := v.info.Uses[id]
+	return o != nil && ((v.env.dObj != nil && o == v.env.dObj) || v.dAlias[o])
+}
+
+// mentionsD: n reads the decoration text (directly or through an alias parameter).
+func (v *lsEval) mentionsD(n ast.Node) bool {
+	hit := false
+	ast.Inspect(n, func(m ast.Node) bool {
+		if x, ok := m.(ast.Expr); ok && v.isD(x) {
+			hit = true
+		}
+		return !hit
+	})
+	return hit
+}
+
+// textLoop: a loop over a text that records the line starts inside it without moving the cursor.
+// Over the decoration itself its effect depends on what the decoration is: "\n" holds exactly one
+// line break, at its first byte — that is the decoration's own line break; a multi-line comment
+// holds at least one (the inner line starts); a // comment and a one-line /* */ hold none.
+func (v *lsEval) textLoop(s *lsState, n ast.Node) {
+	if v.env.dObj == nil || !v.mentionsD(n) {
+		s.inner++
+		return
+	}
+	switch v.env.class {
+	case clsNL:
+		s.breaks++
+	case clsLine, clsInline:
+	default:
+		s.inner++
+	}
+}
+
+// inlineCall: a call statement of a restorer method (or same-package function) without results
+// that changes the line state is interpreted as its body, parameters bound to the arguments.
+func (v *lsEval) inlineCall(s *lsState, call *ast.CallExpr) bool {
+	fn := calleeFunc(v.info, call)
+	if fn == nil || fn.Pkg() == nil || fn.Pkg().Path() != load.PkgDecorator || v.depth >= 3 {
+		return false
+	}
+	sig, _ := fn.Type().(*types.Signature)
+	if sig == nil || sig.Results().Len() != 0 || sig.Variadic() {
+		return false
+	}
+	switch fn.Name() {
+	case "applyDecorations", "applySpace", "applyLiteral", "restoreNode":
+		return false
+	}
+	for _, fd := range load.AllFuncDecls(v.e.Prog.Pkg(load.PkgDecorator)) {
+		if v.info.Defs[fd.Name] != types.Object(fn) || fd.Body == nil {
+			continue
+		}
+		var params []types.Object
+		for _, p := range fd.Type.Params.List {
+			for _, nm := range p.Names {
+				params = append(params, v.info.Defs[nm])
+			}
+		}
+		if len(params) != len(call.Args) {
+			return false
+		}
+		var bound []types.Object
+		for i, p := range params {
+			if p == nil {
+				continue
+			}
+			a := call.Args[i]
+			switch {
+			case v.isD(a):
+				if v.dAlias == nil {
+					v.dAlias = map[types.Object]bool{}
+				}
+				v.dAlias[p] = true
+				bound = append(bound, p)
+			case isTokenPos(p.Type()):
+				if pv, ok := v.posVal(s, a); ok {
+					s.poss[p] = pv
+				}
+			default:
+				if b, ok := p.Type().Underlying().(*types.Basic); ok {
+					switch {
+					case b.Kind() == types.Bool:
+						if val, ok := v.evalBool(s, a); ok {
+							s.bools[p] = val
+						} else {
+							v.fail("argument %s of %s", v.c.ExprStr(a), fn.Name())
+							return true
+						}
+					case b.Info()&types.IsInteger != 0:
+						if n, ok := v.evalInt(s, a); ok {
+							s.ints[p] = n
+						}
+					}
+				}
+			}
+		}
+		v.depth++
+		v.stmts(s, fd.Body.List)
+		v.depth--
+		s.done = false // a return ends the helper only
+		for _, p := range bound {
+			delete(v.dAlias, p)
+		}
+		for _, p := range params {
+			if p != nil {
+				delete(s.bools, p)
+				delete(s.ints, p)
+				delete(s.poss, p)
+			}
+		}
+		return true
+	}
+	return false
 }
 
 func (v *lsEval) evalBool(s *lsState, x ast.Expr) (bool, bool) {
@@ -660,9 +785,13 @@ func (v *lsEval) stmt(s *lsState, st ast.Stmt) {
 						s.cur = lsPos{s.nextEp, 0}
 					}
 					s.sync()
-					if x.Tok == token.ADD_ASSIGN && v.env.dObj != nil {
-						if v.c.ExprStr(r) == "token.Pos(len("+v.env.dObj.Name()+"))" {
-							s.advs++
+					if x.Tok == token.ADD_ASSIGN && v.env.dObj != nil && v.env.class != clsNL {
+						if cv, ok := ast.Unparen(r).(*ast.CallExpr); ok && len(cv.Args) == 1 {
+							if ln, ok := ast.Unparen(cv.Args[0]).(*ast.CallExpr); ok && len(ln.Args) == 1 && v.isD(ln.Args[0]) {
+								if id, ok := ln.Fun.(*ast.Ident); ok && id.Name == "len" {
+									s.advs++
+								}
+							}
 						}
 					}
 				default:
@@ -793,6 +922,9 @@ func (v *lsEval) stmt(s *lsState, st ast.Stmt) {
 			s.done = true
 			return
 		}
+		if v.inlineCall(s, call) {
+			return
+		}
 		if v.effectFreeCall(call) {
 			if fn := calleeFunc(v.info, call); fn != nil {
 				for _, fd := range load.AllFuncDecls(v.e.Prog.Pkg(load.PkgDecorator)) {
@@ -894,7 +1026,7 @@ func (v *lsEval) stmt(s *lsState, st ast.Stmt) {
 	case *ast.ForStmt:
 		if !v.touches(x.Body, s) && (x.Post == nil || !v.touches(x.Post, s)) {
 			if v.e.isTextLoop(v.info, x) {
-				s.inner++
+				v.textLoop(s, x)
 			}
 			return // a loop over the text of a literal/comment: its line entries are not layout breaks
 		}
@@ -928,7 +1060,7 @@ func (v *lsEval) stmt(s *lsState, st ast.Stmt) {
 	case *ast.RangeStmt:
 		if !v.touches(x.Body, s) {
 			if v.e.isTextLoop(v.info, x) {
-				s.inner++
+				v.textLoop(s, x)
 			}
 			return // loop over the text
 		}
